@@ -2,6 +2,7 @@ import SamVerif.Model.Incremental
 /-! Helper lemmas for C10 (`Props/C10.lean`): association lists, the `transitive_set` loop,
 the dependency graph, `recheck`. -/
 set_option linter.unusedSectionVars false
+set_option linter.unusedSimpArgs false
 namespace SamVerif.Incremental
 
 section AList
@@ -652,6 +653,17 @@ section Ops
 variable {Mod Content Sig Err : Type} [DecidableEq Mod]
 variable (ck : Checker Mod Content Sig Err)
 
+@[simp] theorem rebuildGraph_sources (s : State Mod Content Sig Err) :
+    (rebuildGraph s).sources = s.sources := rfl
+@[simp] theorem rebuildGraph_globalCx (s : State Mod Content Sig Err) :
+    (rebuildGraph s).globalCx = s.globalCx := rfl
+@[simp] theorem rebuildGraph_errors (s : State Mod Content Sig Err) :
+    (rebuildGraph s).errors = s.errors := rfl
+@[simp] theorem rebuildGraph_checked (s : State Mod Content Sig Err) :
+    (rebuildGraph s).checked = s.checked := rfl
+@[simp] theorem rebuildGraph_graph (s : State Mod Content Sig Err) :
+    (rebuildGraph s).graph = s.sources := rfl
+
 theorem self_mem_affectedSet (S : Sources Mod Content) (D : List Mod) (x : Mod) (hx : x ∈ D) :
     x ∈ affectedSet ck S D :=
   (mem_affectedSet ck S D x).mpr ⟨x, ⟨x, hx, .refl x⟩, .refl x⟩
@@ -789,6 +801,7 @@ theorem update_inv (hF : Frame ck) (hL : LocalW ck) (hK : Kinds ck)
     (fun k hk => .inr (cov_affectedSet ck _ _ k hk))
     (fun y c x hy hc hx => affected_closed ck _ _ y x hy (mem_fwdEdges_of_lookup ck _ y c x hc hx))
   · intro k
+    try simp only [rebuildGraph_sources, rebuildGraph_errors, rebuildGraph_graph]
     by_cases hk : k ∈ keys U
     · right
       obtain ⟨c, hc⟩ := lookup_some_of_mem_keys hk
@@ -796,8 +809,10 @@ theorem update_inv (hF : Frame ck) (hL : LocalW ck) (hK : Kinds ck)
     · left
       rw [herr, hsrc, hsyn, lookup_none_of_not_mem_keys hk]; simp [hk]
   · intro k hk
+    try simp only [rebuildGraph_sources, rebuildGraph_errors, rebuildGraph_graph]
     rw [herr, hsyn, lookup_none_of_not_mem_keys hk]; simp [hk]
   · intro x hx
+    try simp only [rebuildGraph_sources, rebuildGraph_errors, rebuildGraph_graph]
     rw [hsrc, lookup_none_of_not_mem_keys hx]
 
 theorem remove_fold (s : State Mod Content Sig Err) (ms : List Mod) :
@@ -808,13 +823,14 @@ theorem remove_fold (s : State Mod Content Sig Err) (ms : List Mod) :
   | cons p t ih => simp only [List.foldl_cons]; exact ih _
 
 theorem remove_inv (hF : Frame ck) (hL : LocalW ck) (hK : Kinds ck)
-    (s : State Mod Content Sig Err) (ms : List Mod) (hinv : Inv ck s) :
+    (s : State Mod Content Sig Err) (ms : List Mod) (hg : s.graph = s.sources) (hinv : Inv ck s) :
     Inv ck (remove ck s ms) := by
   unfold remove
   generalize hmdef : ms.filter (fun m => m ≠ ck.root) = ms'
   have hr : ck.root ∉ ms' := by
     rw [← hmdef]; intro h; simpa using (List.mem_filter.mp h).2
   simp only
+  rw [hg]
   have hcx : GoodCx ck (ms'.foldl removeOne s).sources (ms'.foldl removeOne s).globalCx :=
     foldl_inv (fun s' : State Mod Content Sig Err => GoodCx ck s'.sources s'.globalCx)
       removeOne ms'
@@ -843,19 +859,22 @@ theorem remove_inv (hF : Frame ck) (hL : LocalW ck) (hK : Kinds ck)
     (fun x hx => self_mem_affectedSet ck _ _ x hx)
     (fun k hk => .inl (cov_affectedSet ck _ _ k hk))
     (fun y c x hy hc hx => by
+      try simp only [rebuildGraph_sources, rebuildGraph_errors, rebuildGraph_graph] at hc
       rw [hsrc] at hc
       split at hc
       · cases hc
       · exact affected_closed ck _ _ y x hy (mem_fwdEdges_of_lookup ck _ y c x hc hx))
   · intro k
+    try simp only [rebuildGraph_sources, rebuildGraph_errors, rebuildGraph_graph]
     by_cases hk : k ∈ ms'
     · right; rw [herr, hsrc]; simp [hk, lookup]
     · left; rw [herr, hsrc]; simp [hk, lookup]
-  · intro k hk; rw [herr]; simp [hk, lookup]
-  · intro x hx; rw [hsrc]; simp [hx]
+  · intro k hk; try simp only [rebuildGraph_sources, rebuildGraph_errors, rebuildGraph_graph]; rw [herr]; simp [hk, lookup]
+  · intro x hx; try simp only [rebuildGraph_sources, rebuildGraph_errors, rebuildGraph_graph]; rw [hsrc]; simp [hx]
 
 theorem rename_inv (hF : Frame ck) (hL : LocalW ck) (hK : Kinds ck)
-    (s : State Mod Content Sig Err) (rens : List (Mod × Mod)) (hinv : Inv ck s) :
+    (s : State Mod Content Sig Err) (rens : List (Mod × Mod)) (hg : s.graph = s.sources)
+    (hinv : Inv ck s) :
     Inv ck (rename ck s rens) := by
   unfold rename
   generalize hrdef : renamePairs ck.root rens = rs
@@ -863,6 +882,7 @@ theorem rename_inv (hF : Frame ck) (hL : LocalW ck) (hK : Kinds ck)
     intro p hp; rw [← hrdef] at hp
     simpa [renamePairs] using (List.mem_filter.mp hp).2
   simp only
+  rw [hg]
   generalize hDdef : rs.flatMap (fun p => [p.1, p.2]) = D
   have hfold := foldl_inv
     (fun acc : State Mod Content Sig Err × List (Mod × List Err) =>
@@ -950,12 +970,19 @@ theorem rename_inv (hF : Frame ck) (hL : LocalW ck) (hK : Kinds ck)
       exact affected_closed ck _ _ o x hoR (mem_fwdEdges_of_lookup ck _ o c x ho1 hx))
 
 theorem step_inv (hF : Frame ck) (hL : LocalW ck) (hK : Kinds ck)
-    (s : State Mod Content Sig Err) (op : Op Mod Content) (hinv : Inv ck s) :
-    Inv ck (step ck s op) := by
+    (s : State Mod Content Sig Err) (op : Op Mod Content) (hg : s.graph = s.sources)
+    (hinv : Inv ck s) : Inv ck (step ck s op) := by
   cases op with
   | update ups => exact update_inv ck hF hL hK s ups hinv
-  | rename rens => exact rename_inv ck hF hL hK s rens hinv
-  | remove ms => exact remove_inv ck hF hL hK s ms hinv
+  | rename rens => exact rename_inv ck hF hL hK s rens hg hinv
+  | remove ms => exact remove_inv ck hF hL hK s ms hg hinv
+
+/-- `GraphFresh`: the stored dependency graph is the graph of the current sources. -/
+def GraphFresh (s : State Mod Content Sig Err) : Prop := s.graph = s.sources
+
+theorem graphFresh_step (s : State Mod Content Sig Err) (op : Op Mod Content) :
+    GraphFresh (step ck s op) := by
+  cases op <;> rfl
 
 theorem fresh_inv (S : Sources Mod Content) : Inv ck (fresh ck S) :=
   ⟨fun _ => rfl, fun _ _ => Iff.rfl⟩
